@@ -20,7 +20,7 @@ import (
 // (the view case is safe == false). Everything else promises stable values.
 
 func init() {
-	register("V1", "a view into the decoder's input window never becomes (part of) a decoded value: in every function that is not view-returning by the repository's own contract, a view is neither returned, stored through a pointer or field, nor registered in the reference table unless it was copied first (or the `safe` flag proves it is not a view)", 8, ruleV1)
+	register("V1", "a view into the decoder's input window never becomes (part of) a decoded value: in every function that is not view-returning by the repository's own contract, a view is neither returned, stored through a pointer or field, nor registered in the reference table unless it was copied first (or the `safe` flag proves it is not a view)", 4, ruleV1)
 	register("V2", "no view into the decoder's window is used after a later call that can refill the window (anything reaching loadMore): in reader mode the refill overwrites the bytes the view points at, so the value read differs from in-memory decoding", 50, ruleV2)
 }
 
